@@ -25,7 +25,7 @@ API (namespace `Cv`):
   Beta.sample, ChiSquared.sample, T.sample           compositions
   Poisson.sampleMult / samplePtrs / sample           poisson.rs:42-124
   Binomial.inversion / btpe / sample                 binomial.rs:46-262
-  Exponential.sample, Gumbel.sample, Pareto.sample, Bernoulli.sample   (total)
+  Exponential.sample, Gumbel.sample, Pareto.sample (redraw loop on u = 0, fuel), Bernoulli.sample (total)
   MVN.new / MVN.sample / MVN.sampleN
   sampleN, sampleMatrix                              Distribution1D::{sample_n, sample_matrix}
 -/
@@ -97,19 +97,26 @@ def wedgeOrTail (i j : Nat) (g : Rng) : α × α × Rng :=
     let (f2, g) := g.f64 (α := α)
     (x, Transc.exp (-zR * (x - halfC * zR)) * f2, g)
 
+/-- One iteration of the `loop` on the raw word `u` (state after drawing it: `g`): `.inl` = the accepted value and the
+state after it, `.inr` = the state from which the loop continues.  (Kept separate from `sample`, and applied to the
+projections of `g.u64`, so that `sample (fuel + 1)` unfolds without reducing the generator.) -/
+def iter (mu sigma : α) (u : UInt64) (g : Rng) : (α × Rng) ⊕ Rng :=
+  let i := (u &&& 0x7F).toNat
+  let j := ((u >>> 8) &&& 0xFFFFFF).toNat
+  let s : α := if u &&& 0x80 != 0 then 1 else -1
+  if j < zK i then .inl (out mu sigma s ((j : α) * zW i), g)
+  else
+    let r := wedgeOrTail (α := α) i j g
+    if r.2.1 < Transc.exp (-halfC * r.1 * r.1) then .inl (out mu sigma s r.1, r.2.2)
+    else .inr r.2.2
+
 /-- `Normal::sample`: the `loop` with `fuel` iterations. -/
 def sample : Nat → α → α → Rng → Option (α × Rng)
   | 0, _, _, _ => none
   | fuel + 1, mu, sigma, g =>
-    let (u, g) := g.u64
-    let i := (u &&& 0x7F).toNat
-    let j := ((u >>> 8) &&& 0xFFFFFF).toNat
-    let s : α := if u &&& 0x80 != 0 then 1 else -1
-    if j < zK i then some (out mu sigma s ((j : α) * zW i), g)
-    else
-      let (x, y, g) := wedgeOrTail (α := α) i j g
-      if y < Transc.exp (-halfC * x * x) then some (out mu sigma s x, g)
-      else sample fuel mu sigma g
+    match iter mu sigma (g.u64).1 (g.u64).2 with
+    | .inl r => some r
+    | .inr g' => sample fuel mu sigma g'
 
 end Normal
 
@@ -445,29 +452,41 @@ def sample (fuel ifuel : Nat) (n : Nat) (p : α) (g : Rng) : Option (α × Rng) 
 
 end Binomial
 
-/-! ## Inverse-CDF samplers (no loop, no panic) -/
+/-! ## Inverse-CDF samplers (repair F53: a uniform draw of exactly 0 is redrawn) -/
+
+/-- `let mut u = draw(); while u == 0. { u = draw(); }`: the first non-zero draw and the state after it;
+`none` = `fuel` draws were all zero. -/
+def redrawNonzero (draw : Rng → α × Rng) : Nat → Rng → Option (α × Rng)
+  | 0, _ => none
+  | fuel + 1, g =>
+    let r := draw g
+    if r.1 == 0 then redrawNonzero draw fuel r.2 else some r
+
 namespace Exponential
 def valid (lambda : α) : Bool := !decide (lambda ≤ 0)
-/-- `-self.rng.sample().ln() / self.lambda`, `rng = Uniform(0,1)` -/
-def sample (lambda : α) (g : Rng) : α × Rng :=
-  let (u, g) := UniformF.sample (0 : α) 1 g
-  (-(Transc.ln u) / lambda, g)
+/-- the formula after the redraw loop: `-u.ln() / self.lambda` -/
+def ofU (lambda u : α) : α := -(Transc.ln u) / lambda
+/-- `let mut u = self.rng.sample(); while u == 0. { u = self.rng.sample(); } -u.ln() / self.lambda`, `rng = Uniform(0,1)` -/
+def sample (fuel : Nat) (lambda : α) (g : Rng) : Option (α × Rng) :=
+  (redrawNonzero (UniformF.sample (0 : α) 1) fuel g).map fun r => (ofU lambda r.1, r.2)
 end Exponential
 
 namespace Gumbel
 def valid (beta : α) : Bool := !decide (beta ≤ 0)
-/-- `self.mu - self.beta * (-self.uniform_gen.sample().ln()).ln()` -/
-def sample (mu beta : α) (g : Rng) : α × Rng :=
-  let (u, g) := UniformF.sample (0 : α) 1 g
-  (mu - beta * Transc.ln (-(Transc.ln u)), g)
+/-- the formula after the redraw loop: `self.mu - self.beta * (-u.ln()).ln()` -/
+def ofU (mu beta u : α) : α := mu - beta * Transc.ln (-(Transc.ln u))
+/-- `let mut u = self.uniform_gen.sample(); while u == 0. { … } self.mu - self.beta * (-u.ln()).ln()` -/
+def sample (fuel : Nat) (mu beta : α) (g : Rng) : Option (α × Rng) :=
+  (redrawNonzero (UniformF.sample (0 : α) 1) fuel g).map fun r => (ofU mu beta r.1, r.2)
 end Gumbel
 
 namespace Pareto
 def valid (alpha minval : α) : Bool := !(decide (alpha ≤ 0) || decide (minval ≤ 0))
-/-- `let u = alea::f64(); self.minval / u.powf(1. / self.alpha)` -/
-def sample (alpha minval : α) (g : Rng) : α × Rng :=
-  let (u, g) := g.f64 (α := α)
-  (minval / Transc.pow u (1 / alpha), g)
+/-- the formula after the redraw loop: `self.minval / u.powf(1. / self.alpha)` -/
+def ofU (alpha minval u : α) : α := minval / Transc.pow u (1 / alpha)
+/-- `let mut u = alea::f64(); while u == 0. { u = alea::f64(); } self.minval / u.powf(1. / self.alpha)` -/
+def sample (fuel : Nat) (alpha minval : α) (g : Rng) : Option (α × Rng) :=
+  (redrawNonzero (fun g => g.f64 (α := α)) fuel g).map fun r => (ofU alpha minval r.1, r.2)
 end Pareto
 
 namespace Bernoulli
